@@ -41,6 +41,67 @@ def _disc(f):
     return '%s %s' % (kind, st[:30])
 
 
+def swallowed_errors(prog, cg, chk, A4, reach_roots):
+    """No catch handler reachable from a mutating operation completes normally on an SQL error.  An SQL error is
+    sqlite::sqlite_exception (or a base of it) - and every type that some handler in the library throws in its
+    place (a handler for an SQL error type whose body throws T makes T carry SQL failures from then on: catching
+    T somewhere else without rethrowing swallows a failed statement just the same)."""
+    reach = cg.reachable(reach_roots)
+    carriers = set(SQL_ERROR_BASES)
+    handlers = []
+    for f in prog.functions.values():
+        if f.body is None or f.is_pattern or not prog.in_repo(f.file):
+            continue
+        for n in walk(f.node):
+            if n.get('kind') != 'CXXCatchStmt':
+                continue
+            c = children(n)
+            var = c[0] if c and c[0].get('kind') == 'VarDecl' else None
+            htype = program.norm_type_name(var.get('type')) if var is not None else '...'
+            body = c[-1] if c else None
+            thrown = set()
+            for x in (walk(body) if body is not None else []):
+                if x.get('kind') == 'CXXThrowExpr' and children(x):
+                    t = strip(children(x)[0]).get('type') or children(x)[0].get('type') or ''
+                    thrown.add(program.norm_type_name(t))
+            handlers.append((f, n, htype, body, thrown))
+    changed = True
+    while changed:
+        changed = False
+        for f, n, htype, body, thrown in handlers:
+            if htype in carriers or htype == '...':
+                new = {t for t in thrown if t and t not in carriers}
+                if new:
+                    carriers |= new
+                    changed = True
+    n_catch = 0
+    for f, n, htype, body, thrown in handlers:
+        if f.key not in reach:
+            continue
+        n_catch += 1
+        rethrows = body is not None and any(x.get('kind') == 'CXXThrowExpr' for x in walk(body))
+        inst = '%s catches %s' % (f.qualname, htype)
+        if rethrows:
+            chk.ok(A4, inst, locstr(n), detail='handler throws')
+        elif f.cls == TXN and f.kind == 'CXXDestructorDecl':
+            chk.ok(A4, inst, locstr(n), detail='reasoned exception: a failing ROLLBACK after '
+                   'an automatic rollback is harmless (SQLite documentation); the original '
+                   'exception is still propagating')
+        elif htype in carriers or htype == '...':
+            via = '' if htype in SQL_ERROR_BASES or htype == '...' else \
+                ' (%s carries SQL failures: a handler for an SQL error type throws it in their place)' % htype
+            chk.violation(A4, '%s|%s' % (_short(f.qualname), htype), locstr(n),
+                          'handler for %s in %s (reachable from a mutating operation) does not '
+                          'rethrow: a failing statement would be swallowed%s' % (htype, f.qualname, via))
+        else:
+            chk.ok(A4, inst, locstr(n), detail='handler type is not an SQL error type')
+    if n_catch == 0:
+        # positive control for the zero case: the guard destructor's handler must be visible
+        dt = [f for f in prog.functions.values() if f.cls == TXN and f.kind == 'CXXDestructorDecl']
+        if not dt or not any(x.get('kind') == 'CXXCatchStmt' for x in walk(dt[0].node)):
+            chk.fail_broken('A4: no catch site visible at all, not even the transaction destructor\'s')
+
+
 def run(tier='quick'):
     prog = program.load()
     cg = callgraph.get(prog)
@@ -138,39 +199,7 @@ def run(tier='quick'):
                 chk.ok(r, '%s: %s' % (f.qualname, n.get('name')), locstr(n))
 
     # A4
-    reach_roots = [d for label, defs, kind in mut for d in defs]
-    reach = cg.reachable(reach_roots)
-    n_catch = 0
-    for key, (f, _, _) in reach.items():
-        if f.body is None:
-            continue
-        for n in walk(f.node):
-            if n.get('kind') != 'CXXCatchStmt':
-                continue
-            n_catch += 1
-            c = children(n)
-            var = c[0] if c and c[0].get('kind') == 'VarDecl' else None
-            htype = program.norm_type_name(var.get('type')) if var is not None else '...'
-            body = c[-1] if c else None
-            rethrows = body is not None and any(x.get('kind') == 'CXXThrowExpr' for x in walk(body))
-            inst = '%s catches %s' % (f.qualname, htype)
-            if rethrows:
-                chk.ok(A4, inst, locstr(n), detail='handler throws')
-            elif f.cls == TXN and f.kind == 'CXXDestructorDecl':
-                chk.ok(A4, inst, locstr(n), detail='reasoned exception: a failing ROLLBACK after '
-                       'an automatic rollback is harmless (SQLite documentation); the original '
-                       'exception is still propagating')
-            elif htype in SQL_ERROR_BASES or htype == '...':
-                chk.violation(A4, '%s|%s' % (_short(f.qualname), htype), locstr(n),
-                              'handler for %s in %s (reachable from a mutating operation) does not '
-                              'rethrow: a failing statement would be swallowed' % (htype, f.qualname))
-            else:
-                chk.ok(A4, inst, locstr(n), detail='handler type is not an SQL error type')
-    if n_catch == 0:
-        # positive control for the zero case: the guard destructor's handler must be visible
-        dt = [f for f in prog.functions.values() if f.cls == TXN and f.kind == 'CXXDestructorDecl']
-        if not dt or not any(x.get('kind') == 'CXXCatchStmt' for x in walk(dt[0].node)):
-            chk.fail_broken('A4: no catch site visible at all, not even the transaction destructor\'s')
+    swallowed_errors(prog, cg, chk, A4, [d for label, defs, kind in mut for d in defs])
 
     # A5
     _guard_shape(prog, eff, chk, A5)
